@@ -120,6 +120,11 @@ func genItems(r *hx.Rng, n int, sc *Scenario) {
 	inGroup := 0
 	for len(sc.Items) < n {
 		if inGroup > 0 {
+			if r.Chance(15) {
+				// a transaction that touches two databases carries the database switch inside the group
+				d := r.Intn(3)
+				add("sel", d, "SELECT", []byte(strconv.Itoa(d)))
+			}
 			cmd()
 			inGroup--
 			if inGroup == 0 {
@@ -883,12 +888,26 @@ func main() {
 					base.DbMap = map[int]int{0: 1, 1: 0}
 				case 4:
 					base.DbMap = map[int]int{0: 1, 1: 2, 2: 0}
+				case 2:
+					// a configured-out database: the stream enters and leaves it, also inside a transaction
+					base.Black = []int{1}
 				}
 				itemsFromShape(r, sh.S, base)
 				s0 := clone(base)
 				s0.ID = nextID()
 				total := runScenario(s0, tr, stats)
 				stats.Shapes++
+				if ln%6 == 2 {
+					// the TLC schedules that matter around a configured-out database: one tick in one gap of the stream
+					kinds := base.tickKinds()
+					for gp := 1; gp < len(base.Items); gp++ {
+						s := clone(base)
+						s.ID = nextID()
+						s.Ticks[gp] = []string{kinds[(ln+gp)%len(kinds)]}
+						s.Desc = "shape-tick"
+						runScenario(s, tr, stats)
+					}
+				}
 				if *shapeCrashStride > 0 {
 					for k := 1 + r.Intn(*shapeCrashStride); k <= total; k += *shapeCrashStride {
 						s := clone(base)
